@@ -128,6 +128,38 @@ def check_tags_multi(case):
                         viols.append(dict(assertion="tag-selects-exactly-named-range", tags=["multi-block"],
                                           message=f"{text!r}: molecule {mi} residue {resid} has {got} expected {want}", case=case1, detail={}))
             keys.append(f"multi:{a1}:{b1}:{a2}:{b2}")
+        # several directive kinds inside one [ molecule ] block, in both orders, for both molecule names
+        kinds = {"sphere": ("[ sphere ]\n{rn} {s} {t} in 1.0 2.0 3.0 4.5\n", "restraints"),
+                 "rw": ("[ rw_restriction ]\n{rn} {s} {t} 1.0 0.0 0.0 60.0\n", "rw_options"),
+                 "cylinder": ("[ cylinder ]\n{rn} {s} {t} out 1.0 2.0 3.0 0.5 0.7\n", "restraints")}
+        names = {"CH4": [0, 3, 4], "W": [1, 2]}
+        resinfo = {"CH4": [("S", 1), ("B", 2), ("S", 3), ("B", 4)], "W": [("W", 1)]}
+        for molname, (a, b) in (("CH4", (0, 4)), ("CH4", (3, 5)), ("W", (1, 3))):
+            for k1, k2 in itertools.permutations(kinds, 2):
+                rn1, rn2 = ("S", "B") if molname == "CH4" else ("W", "W")
+                text = f"[ molecule ]\n{molname} {a} {b}\n" + kinds[k1][0].format(rn=rn1, s=1, t=4) + kinds[k2][0].format(rn=rn2, s=2, t=5)
+                top = copy.deepcopy(base)
+                evals += 1
+                case1 = dict(kind="tagsm1", text=text)
+                try:
+                    read_build_file(text.splitlines(), top, top.molecules)
+                except Exception as exc:  # noqa
+                    viols.append(crash_violation(exc, case1, assertion="build-file-readable"))
+                    continue
+                for mi, mm in enumerate(top.molecules):
+                    mname = "CH4" if mi in names["CH4"] else "W"
+                    for r, (rn, resid) in enumerate(resinfo[mname]):
+                        want = {"restraints": 0, "rw_options": 0}
+                        if mname == molname and a <= mi < b:
+                            if rn == rn1 and 1 <= resid < 4:
+                                want[kinds[k1][1]] += 1
+                            if rn == rn2 and 2 <= resid < 5:
+                                want[kinds[k2][1]] += 1
+                        got = {k: len(mm.nodes[r].get(k, [])) for k in want}
+                        if got != want:
+                            viols.append(dict(assertion="tag-selects-exactly-named-range", tags=["several-directive-kinds-in-one-block"],
+                                              message=f"{text!r}: molecule {mi} residue {resid}{rn} has {got} expected {want}", case=case1, detail={}))
+                keys.append(f"mixed:{molname}:{k1}:{k2}")
     return viols, evals, keys
 
 
